@@ -6,8 +6,9 @@
    The theorems about families of programs are finite: the family is part of the statement.
    Data races in the Go memory-model sense cannot be expressed by this model (exercised: free-running
    stress; the race detector in the thorough tier).
-   (* OPEN: C15_unrelated_commute_all_programs -- the commutation for arbitrary programs and stores *) *)
-From HP Require Import Base.Prelude Base.Path KV.Types Conc.Conc Conc.ConcProofs Txn.Txn Txn.TxnProofs.
+   Conc/Commute.v proves the "unrelated paths" clause in general: any number of goroutines, any programs over
+   the alphabet, any store, any schedule (non-interference by read/write regions). *)
+From HP Require Import Base.Prelude Base.Path Base.PathProofs Base.DirProofs KV.Types Conc.Conc Conc.ConcProofs Conc.Commute Txn.Txn Txn.TxnProofs.
 Open Scope nat_scope.
 
 (* The property as stated (every interleaving equals some sequential order) is FALSE of the code:
@@ -25,7 +26,61 @@ Theorem C15_orphan_reachable_refuted :
 Proof. exact orphan_reachable. Qed.
 Print Assumptions C15_orphan_reachable_refuted.
 
-(* Operations on unrelated paths do not influence each other: for every program of one or two
+(* "Operations on unrelated paths do not influence each other", in general.  For ANY list of goroutine programs in
+   which no path written by one goroutine lies in the read region of another (the path itself, the ancestors its
+   look-ups walk, its direct children), ANY initial store and ANY two complete runs -- [reach] is an arbitrary
+   schedule at store-transaction granularity -- the goroutines end in the same states (so every operation returned
+   the same result in both runs) and the stores hold the same records. *)
+Theorem C15_unrelated_goroutines_confluent : forall progs s0 s1 gs1 s2 gs2,
+  unrelated_progs progs ->
+  reach s0 (map g_init progs) s1 gs1 -> all_finished gs1 ->
+  reach s0 (map g_init progs) s2 gs2 -> all_finished gs2 ->
+  map g_res gs1 = map g_res gs2 /\ forall k, cget s1 k = cget s2 k.
+Proof. exact unrelated_programs_confluent. Qed.
+Print Assumptions C15_unrelated_goroutines_confluent.
+
+(* In terms of the exploration the correspondence check runs: every outcome [explore] enumerates equals every other
+   one, and equals the outcome of EVERY sequential order of whole operations ([seq_reach]: one goroutine at a time
+   runs one operation from start to end). *)
+Theorem C15_unrelated_interleavings_equal_every_sequential_order : forall progs s0 fuel o,
+  unrelated_progs progs -> In o (explore fuel s0 (map g_init progs)) ->
+  (forall fuel' o', In o' (explore fuel' s0 (map g_init progs)) ->
+     fst o' = fst o /\ forall k, cget (snd o') k = cget (snd o) k)
+  /\ (forall s2 gs2, seq_reach s0 (map g_init progs) s2 gs2 -> all_finished gs2 ->
+     map g_res gs2 = fst o /\ forall k, cget s2 k = cget (snd o) k).
+Proof. exact explore_unrelated_one_outcome. Qed.
+Print Assumptions C15_unrelated_interleavings_equal_every_sequential_order.
+
+(* ... and such a sequential order always exists (every operation of the alphabet terminates). *)
+Theorem C15_sequential_order_exists : forall progs s,
+  exists s2 gs2, seq_reach s (map g_init progs) s2 gs2 /\ all_finished gs2.
+Proof. exact sequential_order_exists_progs. Qed.
+Print Assumptions C15_sequential_order_exists.
+
+(* "Unrelated" follows from the shape of the paths alone: real-name paths of different goroutines that are pairwise
+   apart (neither equals the other nor lies below it).  In particular a sibling whose name merely extends another
+   ("d" and "dx") is apart from it. *)
+Theorem C15_apart_paths_are_unrelated : forall progs,
+  (forall ops, In ops progs -> paths_ok ops) ->
+  (forall i j pi pj oi oj, i <> j -> nth_error progs i = Some pi -> nth_error progs j = Some pj ->
+     In oi pi -> In oj pj -> apart (cop_path oi) (cop_path oj)) ->
+  unrelated_progs progs.
+Proof. exact apart_unrelated. Qed.
+Print Assumptions C15_apart_paths_are_unrelated.
+
+(* the premise is decidable, holds of concrete three-goroutine programs that have outcomes, and fails for the two
+   refutation witnesses above (so the theorem does not contradict them) *)
+Theorem C15_unrelated_nonvacuous :
+  pairwise_b demo_progs = true /\ unrelated_progs demo_progs
+  /\ Nat.ltb 0 (length (explore 200 demo_store (map g_init demo_progs))) = true
+  /\ pairwise_b two_mkdirs = false /\ pairwise_b mkdir_vs_remove = false.
+Proof.
+  exact (conj demo_unrelated (conj (pairwise_b_sound _ demo_unrelated) (conj demo_has_outcomes
+         (conj (proj1 demo_related_rejected) (proj1 (proj2 demo_related_rejected)))))).
+Qed.
+Print Assumptions C15_unrelated_nonvacuous.
+
+(* The earlier finite instance, kept: for every program of one or two
    operations from [ops_left] (below d/) run against every operation from [ops_right] (below e/), every
    interleaving ends in one and the same outcome, and it is a sequential one. (42 x 6 programs.) *)
 Theorem C15_unrelated_commute_partial : forall pl pr,
